@@ -8,6 +8,7 @@ queues the others; queued alternatives are explored by re-executing the harness
 with the recorded decision prefix (depth first).  Every path that is explored
 is feasible by construction.
 """
+import os
 import time
 import z3
 import sx
@@ -49,9 +50,12 @@ class Stats:
         self.inconclusive = 0
         self.unmodelled = 0
         self.samples = []
+        self.xcheck_agree = 0       # obligations re-decided by cvc5 with the same verdict
+        self.xcheck_unknown = 0     # cvc5 gave no verdict within its budget
+        self.xcheck_disagree = 0    # cvc5 found the negated claim satisfiable: the obligation is reported as inconclusive
 
     def merge(self, o):
-        for k in ('paths', 'queries', 'obligations', 'discharged', 'inconclusive', 'unmodelled'):
+        for k in ('paths', 'queries', 'obligations', 'discharged', 'inconclusive', 'unmodelled', 'xcheck_agree', 'xcheck_unknown', 'xcheck_disagree'):
             setattr(self, k, getattr(self, k) + getattr(o, k))
         self.solver_s += o.solver_s
         self.samples.extend(o.samples[:max(0, 6 - len(self.samples))])
@@ -59,10 +63,55 @@ class Stats:
     def as_dict(self):
         return dict(paths=self.paths, queries=self.queries, solver_time_s=round(self.solver_s, 3),
                     obligations=self.obligations, discharged=self.discharged,
-                    inconclusive=self.inconclusive, unmodelled=self.unmodelled)
+                    inconclusive=self.inconclusive, unmodelled=self.unmodelled,
+                    xcheck_agree=self.xcheck_agree, xcheck_unknown=self.xcheck_unknown, xcheck_disagree=self.xcheck_disagree)
 
 
 STATS = Stats()
+
+# ---- second solver: a sample of the obligations z3 discharged is exported as SMT-LIB2 and re-decided by cvc5
+XCHECK = {'budget': int(os.environ.get('VERIF_XCHECK', '2')), 'done': 0, 'timeout_ms': 4000}
+
+
+def cvc5_check(smt2, timeout_ms=4000):
+    """'sat' | 'unsat' | 'unknown' | None (cvc5 unavailable or the text was not accepted)"""
+    try:
+        import cvc5
+        slv = cvc5.Solver()
+        slv.setOption('tlimit-per', str(timeout_ms))
+        slv.setLogic('ALL')
+        sm = cvc5.SymbolManager(slv.getTermManager()) if hasattr(slv, 'getTermManager') else cvc5.SymbolManager(slv)
+        prs = cvc5.InputParser(slv, sm)
+        prs.setStringInput(cvc5.InputLanguage.SMT_LIB_2_6, smt2, 'obligation')
+        res = None
+        while True:
+            cmd = prs.nextCommand()
+            if cmd.isNull():
+                break
+            out = cmd.invoke(slv, sm).strip()
+            if out in ('sat', 'unsat', 'unknown'):
+                res = out
+            elif out.startswith('(error'):
+                return None
+        return res
+    except Exception:      # noqa  (a second opinion that cannot be obtained is not a verdict)
+        return None
+
+
+def _xcheck_unsat(solver_text):
+    """called for an obligation z3 has just discharged; returns False iff cvc5 contradicts it"""
+    if XCHECK['done'] >= XCHECK['budget']:
+        return True
+    XCHECK['done'] += 1
+    r = cvc5_check(solver_text, XCHECK['timeout_ms'])
+    if r == 'unsat':
+        STATS.xcheck_agree += 1
+    elif r == 'sat':
+        STATS.xcheck_disagree += 1
+        return False
+    else:
+        STATS.xcheck_unknown += 1
+    return True
 
 
 import threading
@@ -349,6 +398,9 @@ class Engine:
                 break
         STATS.solver_s += time.perf_counter() - t0
         if r == z3.unsat:
+            if not _xcheck_unsat(s2.to_smt2()):
+                STATS.inconclusive += 1
+                return 'unknown', None
             STATS.discharged += 1
             return 'unsat', None
         if r == z3.sat:
